@@ -1,6 +1,7 @@
-(* The position map of C34 on the parse trees of the builder model (Model/Build.v, C01/C06):
-   keys are spans (tpos, tend) of common-rule nodes of the Peg parse tree, and every object
-   process_node (pnode) builds is one of them. *)
+(* The editor-support data of C34 on the parse trees of the builder model (Model/Build.v, C01/C06):
+   keys of the position map are spans (tpos, tend) of common-rule nodes of the Peg parse tree,
+   collected references are the children of reference assignments with their span, and every
+   object / pending reference process_node (pnode) builds is one of them. *)
 From Coq Require Import Sorting.Sorted Sorting.Permutation.
 From TxV Require Import Core.Base Model.PegSyntax Model.Peg Model.Build Proofs.BuildProofs Proofs.BuildObjProofs.
 From TxV Require Import Model.EdPosDefs Gen.SrcEdPos Model.EdPos Proofs.EdPosProofs Model.EdPosBuild.
@@ -15,8 +16,11 @@ Definition item_of (t : tree) : N * N * nat := (fst (nspan t), snd (nspan t), tr
 Lemma subtrees_kid n kids k t' : In k kids -> In t' (subtrees k) -> In t' (subtrees (NT n kids)).
 Proof. intros Hk Ht. cbn [subtrees]. right. apply in_flat_map. exists k. split; assumption. Qed.
 
-Lemma sel_nonmatch_cases kind l r :
-  sel_nonmatch (list node) ab [] kind l = Some r -> r = [] \/ exists x, In x l /\ r = ab x.
+Lemma subtrees_self t : In t (subtrees t).
+Proof. destruct t; cbn [subtrees]; left; reflexivity. Qed.
+
+Lemma sel_nonmatch_cases meta kind l r :
+  sel_nonmatch (list node) (ab meta) [] kind l = Some r -> r = [] \/ exists x, In x l /\ r = ab meta x.
 Proof.
   induction l as [|x l IH]; cbn [sel_nonmatch]; intro H; [discriminate|].
   destruct x as [n p len s|xn kids].
@@ -27,8 +31,8 @@ Proof.
     + inversion H; subst. left; reflexivity.
 Qed.
 
-Lemma sel_nt_cases hc l r :
-  sel_nt (list node) ab [] hc l = Some r -> r = [] \/ exists x, In x l /\ r = ab x.
+Lemma sel_nt_cases meta hc l r :
+  sel_nt (list node) (ab meta) [] hc l = Some r -> r = [] \/ exists x, In x l /\ r = ab meta x.
 Proof.
   induction l as [|x l IH]; cbn [sel_nt]; intro H; [discriminate|].
   destruct x as [n p len s|xn kids].
@@ -36,60 +40,95 @@ Proof.
   - inversion H; subst. destruct (hc xn); [right; exists (NT xn kids); split; [left; reflexivity | reflexivity] | left; reflexivity].
 Qed.
 
-Definition objs_ok (t : tree) : Prop :=
-  forall x, In x (flat_map objs_post (ab t)) ->
-  exists t', In t' (subtrees t) /\ is_common mm t' /\ x = item_of t'.
+(* a node of the abstraction comes from a subtree: generic traversal lemma.
+   Q nd t' : the abstraction node nd was made for the parse-tree node t' *)
+Definition made (nd : node) (t' : tree) : Prop :=
+  match nd with
+  | NObj i s e _ => is_common mm t' /\ (s, e, i) = item_of t'
+  | NRef i s e _ => (s, e) = nspan t' /\ i = tree_nid t'
+  | NTok s e => (s, e) = nspan t'
+  end.
 
-Lemma abs_objs : forall t, objs_ok t.
+Definition nodes_ok (t : tree) : Prop :=
+  forall meta nd, In nd (flat_map subnodes (ab meta t)) -> exists t', In t' (subtrees t) /\ made nd t'.
+
+Lemma abs_nodes : forall t, nodes_ok t.
 Proof.
-  induction t as [n p l s | n kids IH] using tree_ind2; intros x Hx.
-  - cbn in Hx. destruct Hx.
+  induction t as [n p l s | n kids IH] using tree_ind2; intros meta nd Hx.
+  - cbn in Hx. destruct Hx as [<-|[]]. exists (T n p l s). split; [left; reflexivity | reflexivity].
   - rewrite Forall_forall in IH.
-    assert (Hkid : forall k, In k kids -> In x (flat_map objs_post (ab k)) ->
-                   exists t', In t' (subtrees (NT n kids)) /\ is_common mm t' /\ x = item_of t').
-    { intros k Hk Hin. destruct (IH _ Hk _ Hin) as [t' [H1 [H2 H3]]].
-      exists t'. split; [eapply subtrees_kid; eassumption | split; assumption]. }
+    assert (Hkid : forall m k, In k kids -> In nd (flat_map subnodes (ab m k)) ->
+                   exists t', In t' (subtrees (NT n kids)) /\ made nd t').
+    { intros m k Hk Hin. destruct (IH _ Hk _ _ Hin) as [t' [H1 H2]].
+      exists t'. split; [eapply subtrees_kid; eassumption | exact H2]. }
+    assert (Hrefkid : forall m a k, In k kids ->
+              In nd (flat_map subnodes ((if is_refattr a m then [refnode k] else []) ++ ab m k)) ->
+              exists t', In t' (subtrees (NT n kids)) /\ made nd t').
+    { intros m a k Hk Hin. rewrite flat_map_app in Hin. apply in_app_or in Hin as [Hin|Hin]; [|apply (Hkid m k Hk Hin)].
+      destruct (is_refattr a m); [|destruct Hin]. cbn in Hin. destruct Hin as [<-|[]].
+      exists k. split; [eapply subtrees_kid; [exact Hk | apply subtrees_self] | split; reflexivity]. }
     cbn [abs] in Hx. destruct (info mm n) as [a op|k cls attrs|r gr|] eqn:Ei.
     + destruct op.
-      * destruct kids as [|k rest]; [destruct Hx|]. apply (Hkid k); [left; reflexivity | exact Hx].
+      * destruct kids as [|k rest]; [destruct Hx|]. apply (Hrefkid meta a k); [left; reflexivity | exact Hx].
       * destruct Hx.
-      * apply in_flat_map in Hx as [nd [Hnd Hx]]. apply in_flat_map in Hnd as [k [Hk Hnd]].
-        destruct (is_sep_of g n k); [destruct Hnd|].
-        apply (Hkid k Hk). apply in_flat_map. exists nd. split; assumption.
+      * apply in_flat_map in Hx as [x [Hx1 Hx2]]. apply in_flat_map in Hx1 as [k [Hk Hx1]].
+        destruct (is_sep_of g n k); [destruct Hx1|].
+        apply (Hrefkid meta a k Hk). apply in_flat_map. exists x. split; assumption.
       * destruct Hx.
     + destruct k.
-      * cbn [flat_map objs_post] in Hx. rewrite app_nil_r in Hx.
-        apply in_app_or in Hx as [Hx|[<-|[]]].
-        -- apply in_flat_map in Hx as [nd [Hnd Hx]]. apply in_flat_map in Hnd as [k [Hk Hnd]].
-           apply (Hkid k Hk). apply in_flat_map. exists nd. split; assumption.
+      * cbn [flat_map subnodes] in Hx. rewrite app_nil_r in Hx. destruct Hx as [<-|Hx].
         -- exists (NT n kids). split; [left; reflexivity|]. split; [exists cls, attrs; exact Ei | reflexivity].
+        -- apply in_flat_map in Hx as [x [Hx1 Hx2]]. apply in_flat_map in Hx1 as [k [Hk Hx1]].
+           apply (Hkid attrs k Hk). apply in_flat_map. exists x. split; assumption.
       * destruct kids as [|k rest]; [destruct Hx|]. destruct rest as [|k2 rest].
-        -- apply (Hkid k); [left; reflexivity | exact Hx].
-        -- destruct (sel_nonmatch (list node) ab [] (nonmatch_class mm) (k :: k2 :: rest)) as [r|] eqn:E1.
-           ++ apply sel_nonmatch_cases in E1 as [->|[y [Hy ->]]]; [destruct Hx | apply (Hkid y Hy Hx)].
-           ++ destruct (sel_nt (list node) ab [] (has_class mm) (k :: k2 :: rest)) as [r|] eqn:E2; [|destruct Hx].
-              apply sel_nt_cases in E2 as [->|[y [Hy ->]]]; [destruct Hx | apply (Hkid y Hy Hx)].
-      * cbn in Hx. destruct Hx.
+        -- apply (Hkid meta k); [left; reflexivity | exact Hx].
+        -- destruct (sel_nonmatch (list node) (ab meta) [] (nonmatch_class mm) (k :: k2 :: rest)) as [r|] eqn:E1.
+           ++ apply sel_nonmatch_cases in E1 as [->|[y [Hy ->]]]; [destruct Hx | apply (Hkid meta y Hy Hx)].
+           ++ destruct (sel_nt (list node) (ab meta) [] (has_class mm) (k :: k2 :: rest)) as [r|] eqn:E2; [|destruct Hx].
+              apply sel_nt_cases in E2 as [->|[y [Hy ->]]]; [destruct Hx | apply (Hkid meta y Hy Hx)].
+      * cbn in Hx. destruct Hx as [<-|[]]. exists (NT n kids). split; [left; reflexivity | reflexivity].
     + destruct Hx.
     + destruct Hx.
+Qed.
+
+Lemma obj_is_subnode nd : forall x, In x (objs_post nd) -> exists i s e ks, In (NObj i s e ks) (subnodes nd) /\ x = (s, e, i).
+Proof.
+  induction nd as [i s e kids IHk|i s e nm|s e] using node_ind'; intros x Hx; cbn [objs_post] in Hx; try destruct Hx.
+  apply in_app_or in Hx as [Hx|[<-|[]]].
+  - apply in_flat_map in Hx as [k [Hk Hx]]. rewrite Forall_forall in IHk.
+    destruct (IHk _ Hk _ Hx) as [i' [s' [e' [ks [H1 H2]]]]]. exists i', s', e', ks. split; [|exact H2].
+    cbn [subnodes]. right. apply in_flat_map. exists k. split; assumption.
+  - exists i, s, e, kids. split; [cbn [subnodes]; left; reflexivity | reflexivity].
 Qed.
 
 (* every key of the position map of the abstracted tree is the span (tpos, tend) of a
    common-rule node of the parse tree, and its value is that node's rule *)
-Theorem dict_key_is_node_span t nd s e i :
-  In nd (ab t) -> In (s, e, i) (rule_dict nd) ->
+Theorem dict_key_is_node_span meta t nd s e i :
+  In nd (ab meta t) -> In (s, e, i) (rule_dict nd) ->
   exists t', In t' (subtrees t) /\ is_common mm t' /\
              i = tree_nid t' /\ s = N.of_nat (Build.tpos t') /\ e = N.of_nat (Build.tend t').
 Proof.
   intros Hnd Hd. apply dict_sound in Hd.
-  destruct (abs_objs t (s, e, i)) as [t' [H1 [H2 H3]]].
+  destruct (obj_is_subnode nd _ Hd) as [i' [s' [e' [ks [H1 H2]]]]]. inversion H2; subst i' s' e'.
+  destruct (abs_nodes t meta (NObj i s e ks)) as [t' [Ht [Hc Hi]]].
   { apply in_flat_map. exists nd. split; assumption. }
-  exists t'. split; [exact H1|]. split; [exact H2|]. unfold item_of, nspan in H3. cbn [fst snd] in H3.
-  inversion H3; subst. repeat split; reflexivity.
+  exists t'. split; [exact Ht|]. split; [exact Hc|]. unfold item_of, nspan in Hi. cbn [fst snd] in Hi.
+  inversion Hi; subst. repeat split; reflexivity.
+Qed.
+
+(* every collected reference is the child a reference assignment reads, with that node's span:
+   ObjCrossRef.position / position_end = start / end of the reference node of the parse tree *)
+Theorem ref_is_tree_node meta t nd x :
+  In nd (ab meta t) -> In x (refs_pre nd) ->
+  exists k, In k (subtrees t) /\ cstart x = N.of_nat (Build.tpos k) /\ cend x = N.of_nat (Build.tend k).
+Proof.
+  intros Hnd Hx. apply ref_is_node in Hx.
+  destruct (abs_nodes t meta _ (proj2 (in_flat_map _ _ _) (ex_intro _ nd (conj Hnd Hx)))) as [k [Hk [Hs _]]].
+  exists k. split; [exact Hk|]. unfold nspan in Hs. inversion Hs. split; reflexivity.
 Qed.
 End A.
 
-(* ================================================================ pnode's objects are among them *)
+(* ================================================================ what pnode builds is among them *)
 Lemma incl_chain {A} (X B C O1 O2 O : list A) :
   incl X (B ++ O1) -> incl B (C ++ O2) -> incl O1 O -> incl O2 O -> incl X (C ++ O).
 Proof.
@@ -98,15 +137,15 @@ Proof.
   - apply in_or_app; right. apply H3; exact Hx.
 Qed.
 
-Lemma ospans_app a b : ospans (a ++ b) = ospans a ++ ospans b.
-Proof. unfold ospans. rewrite flat_map_app, map_app. reflexivity. Qed.
+Lemma oitems_app a b : oitems (a ++ b) = oitems a ++ oitems b.
+Proof. unfold oitems. apply flat_map_app. Qed.
 
-Lemma ospans_obj i s e ks : ospans [NObj i s e ks] = ospans ks ++ [(s, e)].
-Proof. unfold ospans. cbn [flat_map objs_post]. rewrite app_nil_r, map_app. reflexivity. Qed.
+Lemma oitems_obj i s e ks : oitems [NObj i s e ks] = oitems ks ++ [IObj s e].
+Proof. unfold oitems. cbn [flat_map nitems]. rewrite app_nil_r. reflexivity. Qed.
 
-Lemma valspans_set a v l : incl (valspans (set_val a v l)) (valspans l ++ vspans v).
+Lemma valitems_set a v l : incl (valitems (set_val a v l)) (valitems l ++ vitems v).
 Proof.
-  induction l as [|[k w] l IH]; cbn [set_val valspans flat_map].
+  induction l as [|[k w] l IH]; cbn [set_val valitems flat_map].
   - rewrite app_nil_r. apply incl_refl.
   - destruct (str_eqb a k); cbn [flat_map].
     + intros x Hx. apply in_app_or in Hx as [Hx|Hx]; apply in_or_app; [right; exact Hx | left; apply in_or_app; right; exact Hx].
@@ -115,21 +154,21 @@ Proof.
       * apply IH in Hx. apply in_app_or in Hx as [Hx|Hx]; apply in_or_app; [left; apply in_or_app; right; exact Hx | right; exact Hx].
 Qed.
 
-Lemma valspans_get a l w : get_val a l = Some w -> incl (vspans w) (valspans l).
+Lemma valitems_get a l w : get_val a l = Some w -> incl (vitems w) (valitems l).
 Proof.
-  induction l as [|[k u] l IH]; cbn [get_val valspans flat_map]; intro H; [discriminate|].
+  induction l as [|[k u] l IH]; cbn [get_val valitems flat_map]; intro H; [discriminate|].
   destruct (str_eqb a k).
   - inversion H; subst. apply incl_appl, incl_refl.
   - apply incl_appr. apply IH; exact H.
 Qed.
 
-Lemma topspans_set a v c : incl (topspans (Some (cur_set a v c))) (topspans (Some c) ++ vspans v).
-Proof. cbn [topspans cur_set c_vals]. apply valspans_set. Qed.
+Lemma topitems_set a v c : incl (topitems (Some (cur_set a v c))) (topitems (Some c) ++ vitems v).
+Proof. cbn [topitems cur_set c_vals]. apply valitems_set. Qed.
 
-Lemma init_nospans auto attrs : valspans (init_attrs auto attrs) = [].
+Lemma init_noitems auto attrs : valitems (init_attrs auto attrs) = [].
 Proof.
   unfold init_attrs. induction attrs as [|a l IH]; [reflexivity|].
-  cbn [map valspans flat_map]. fold (valspans (map (fun a0 => (a_name a0, init_attr auto a0)) l)). rewrite IH, app_nil_r.
+  cbn [map valitems flat_map]. fold (valitems (map (fun a0 => (a_name a0, init_attr auto a0)) l)). rewrite IH, app_nil_r.
   unfold init_attr. destruct (a_mult a); try reflexivity;
     destruct (is_base_type (a_cls a)); try reflexivity; destruct auto; try reflexivity; destruct (a_bool a); reflexivity.
 Qed.
@@ -143,7 +182,7 @@ Variable auto use_grp : bool.
 Notation pn := (pnode g mm input grp auto use_grp).
 Notation ab := (abs g mm).
 
-Lemma term_value_nospans n p l v : term_value g mm input grp use_grp n p l = BOk v -> vspans v = [].
+Lemma term_value_noitems n p l v : term_value g mm input grp use_grp n p l = BOk v -> vitems v = [].
 Proof.
   unfold term_value. intro H.
   destruct use_grp; [|inversion H; reflexivity].
@@ -155,8 +194,8 @@ Proof.
   destruct (is_base5 _); [discriminate | inversion H; reflexivity].
 Qed.
 
-Lemma go_nospans l :
-  Forall (fun t => forall v, pmatch g input t = BOk v -> vspans v = []) l ->
+Lemma go_noitems l :
+  Forall (fun t => forall v, pmatch g input t = BOk v -> vitems v = []) l ->
   forall vs,
   (fix go (l : list tree) : bres (list value) :=
      match l with
@@ -165,7 +204,7 @@ Lemma go_nospans l :
                   | BOk v => match go l' with BOk vs => BOk (v :: vs) | BErr e => BErr e end
                   | BErr e => BErr e
                   end
-     end) l = BOk vs -> flat_map vspans vs = [].
+     end) l = BOk vs -> flat_map vitems vs = [].
 Proof.
   induction l as [|x l IHl]; intros HF vs E.
   - inversion E; reflexivity.
@@ -175,112 +214,140 @@ Proof.
     inversion E; subst. cbn [flat_map]. rewrite (Hx _ eq_refl), (IHl HF' _ eq_refl). reflexivity.
 Qed.
 
-Lemma pmatch_nospans : forall t v, pmatch g input t = BOk v -> vspans v = [].
+Lemma pmatch_noitems : forall t v, pmatch g input t = BOk v -> vitems v = [].
 Proof.
   induction t as [n p l s | n kids IH] using tree_ind2; intros v H.
   - cbn [pmatch] in H. inversion H; reflexivity.
   - cbn [pmatch] in H. destruct (is_base5 _); [discriminate|].
     destruct kids as [|k rest]; [discriminate|]. destruct rest as [|k2 rest].
     + inversion IH as [|? ? Hk _]; subst. destruct (pmatch g input k) as [w|] eqn:E; [|discriminate].
-      inversion H; subst. cbn [vspans]. apply Hk. reflexivity.
+      inversion H; subst. cbn [vitems]. apply Hk. reflexivity.
     + inversion IH as [|? ? Hk IH2]; subst. inversion IH2 as [|? ? Hk2 IH3]; subst.
       destruct (pmatch g input k) as [w1|] eqn:E1; [|discriminate].
       destruct (pmatch g input k2) as [w2|] eqn:E2; [|discriminate].
       match type of H with match match match ?G with _ => _ end with _ => _ end with _ => _ end = _ => destruct G as [vs|] eqn:E3 end; [|discriminate].
-      inversion H; subst. cbn [vspans flat_map].
-      rewrite (Hk _ eq_refl), (Hk2 _ eq_refl), (go_nospans _ IH3 _ E3). reflexivity.
+      inversion H; subst. cbn [vitems flat_map].
+      rewrite (Hk _ eq_refl), (Hk2 _ eq_refl), (go_noitems _ IH3 _ E3). reflexivity.
 Qed.
+
+(* the class table pnode reads from the stack top is the one abs was given *)
+Definition meta_is (meta : list attr) (top : option cur) : Prop :=
+  match top with Some c => c_meta c = meta | None => True end.
+
+Lemma meta_frame meta top top' : same_frame top top' -> meta_is meta top -> meta_is meta top'.
+Proof. destruct top, top'; cbn; try tauto. intros [_ [_ [_ H]]] <-. exact H. Qed.
 
 Definition ok_rec (rec : tree -> option cur -> bres (value * option cur)) (t : tree) : Prop :=
-  forall top v top', rec t top = BOk (v, top') ->
-  incl (map sp (vspans v ++ topspans top')) (map sp (topspans top) ++ ospans (ab t)).
+  forall meta top v top', meta_is meta top -> rec t top = BOk (v, top') ->
+  incl (vitems v ++ topitems top') (topitems top ++ oitems (ab meta t)).
 
 Lemma each_objs rec l :
-  Forall (ok_rec rec) l -> forall top top', each_loop rec l top = BOk top' ->
-  incl (map sp (topspans top')) (map sp (topspans top) ++ ospans (flat_map ab l)).
+  Forall (ok_rec rec) l -> Forall (frame_ok rec) l ->
+  forall meta top top', meta_is meta top -> each_loop rec l top = BOk top' ->
+  incl (topitems top') (topitems top ++ oitems (flat_map (ab meta) l)).
 Proof.
-  induction l as [|k l IH]; intros HF top top' H; cbn [each_loop] in H.
+  induction l as [|k l IH]; intros HF HR meta top top' Hm H; cbn [each_loop] in H.
   - inversion H; subst. apply incl_appl, incl_refl.
-  - inversion HF as [|? ? Hk HF']; subst.
+  - inversion HF as [|? ? Hk HF']; subst. inversion HR as [|? ? Rk HR']; subst.
     destruct (rec k top) as [[v top1]|e] eqn:E; [|discriminate].
-    cbn [flat_map]. rewrite ospans_app.
-    eapply incl_chain; [apply (IH HF' _ _ H) | | apply incl_appr, incl_refl | apply incl_appl, incl_refl].
-    eapply incl_tran; [|apply (Hk _ _ _ E)]. rewrite map_app. apply incl_appr, incl_refl.
+    cbn [flat_map]. rewrite oitems_app.
+    eapply incl_chain; [apply (IH HF' HR' meta _ _ (meta_frame _ _ _ (Rk _ _ _ E) Hm) H) | | apply incl_appr, incl_refl | apply incl_appl, incl_refl].
+    eapply incl_tran; [|apply (Hk _ _ _ _ Hm E)]. apply incl_appr, incl_refl.
 Qed.
 
-Lemma lst_objs rec is_sep a is_ref l :
-  Forall (ok_rec rec) l -> forall top top', lst_loop rec is_sep a is_ref l top = BOk top' ->
-  incl (map sp (topspans top')) (map sp (topspans top) ++ ospans (flat_map (fun k => if is_sep k then [] else ab k) l)).
+Definition refcls_of (ma : attr) : option (list N) :=
+  if (a_ref ma && negb (a_cont ma))%bool then Some (a_cls ma) else None.
+
+Lemma lst_objs rec is_sep a refcls isr l :
+  Forall (ok_rec rec) l -> Forall (frame_ok rec) l ->
+  (match refcls with Some _ => isr = true | None => isr = false end) ->
+  forall meta top top', meta_is meta top -> lst_loop rec is_sep a refcls l top = BOk top' ->
+  incl (topitems top')
+       (topitems top ++ oitems (flat_map (fun k => if is_sep k then [] else (if isr then [refnode k] else []) ++ ab meta k) l)).
 Proof.
-  induction l as [|k l IH]; intros HF top top' H; cbn [lst_loop] in H.
+  induction l as [|k l IH]; intros HF HR Hisr meta top top' Hm H; cbn [lst_loop] in H.
   - inversion H; subst. apply incl_appl, incl_refl.
-  - inversion HF as [|? ? Hk HF']; subst. cbn [flat_map].
-    destruct (is_sep k); [apply (IH HF' _ _ H)|].
-    destruct (rec k top) as [[v top1]|e] eqn:E; [|discriminate].
-    destruct is_ref; [discriminate|].
+  - inversion HF as [|? ? Hk HF']; subst. inversion HR as [|? ? Rk HR']; subst. cbn [flat_map].
+    destruct (is_sep k); [apply (IH HF' HR' Hisr meta _ _ Hm H)|].
+    destruct (rec k top) as [[v0 top1]|e] eqn:E; [|discriminate].
+    set (v := match refcls with Some cl => VRef v0 (Build.tpos k) cl | None => v0 end) in *.
     destruct top1 as [c1|]; [|discriminate].
-    pose proof (Hk _ _ _ E) as Hs. rewrite ospans_app.
-    assert (Hnew : forall X, incl (vspans X) (topspans (Some c1) ++ vspans v) ->
-                   incl (map sp (topspans (Some (cur_set a X c1)))) (map sp (topspans top) ++ ospans (ab k))).
-    { intros X HX. eapply incl_tran; [|exact Hs]. apply incl_map.
-      eapply incl_tran; [apply topspans_set|]. intros x Hx. apply in_app_or in Hx as [Hx|Hx].
+    pose proof (Hk _ _ _ _ Hm E) as Hs.
+    pose proof (meta_frame _ _ _ (Rk _ _ _ E) Hm) as Hm1.
+    rewrite oitems_app.
+    set (O := oitems ((if isr then [refnode k] else []) ++ ab meta k)).
+    assert (Hv : incl (vitems v ++ topitems (Some c1)) (topitems top ++ O)).
+    { subst v O. rewrite oitems_app. destruct refcls as [cl|]; subst isr.
+      - cbn [vitems app]. intros x [<-|Hx].
+        + apply in_or_app; right. apply in_or_app; left. cbn. left. reflexivity.
+        + apply Hs in Hx. apply in_app_or in Hx as [Hx|Hx]; apply in_or_app; [left; exact Hx | right; apply in_or_app; right; exact Hx].
+      - cbn [oitems flat_map app]. exact Hs. }
+    assert (Hnew : forall X, incl (vitems X) (topitems (Some c1) ++ vitems v) ->
+                   incl (topitems (Some (cur_set a X c1))) (topitems top ++ O)).
+    { intros X HX. eapply incl_tran; [|exact Hv].
+      eapply incl_tran; [apply topitems_set|]. intros x Hx. apply in_app_or in Hx as [Hx|Hx].
       - apply in_or_app; right; exact Hx.
       - apply HX in Hx. apply in_app_or in Hx as [Hx|Hx]; apply in_or_app; [right | left]; exact Hx. }
+    assert (Hm2 : forall X, meta_is meta (Some (cur_set a X c1))) by (intro X; exact Hm1).
     destruct (get_val a (c_vals c1)) as [[]|] eqn:Eg; try discriminate.
-    + eapply incl_chain; [apply (IH HF' _ _ H) | apply Hnew | apply incl_appr, incl_refl | apply incl_appl, incl_refl].
-      cbn [vspans flat_map]. rewrite app_nil_r. apply incl_appr, incl_refl.
-    + eapply incl_chain; [apply (IH HF' _ _ H) | apply Hnew | apply incl_appr, incl_refl | apply incl_appl, incl_refl].
-      cbn [vspans]. rewrite flat_map_app. cbn [flat_map]. rewrite app_nil_r.
+    + eapply incl_chain; [apply (IH HF' HR' Hisr meta _ _ (Hm2 _) H) | apply Hnew | apply incl_appr, incl_refl | apply incl_appl, incl_refl].
+      cbn [vitems flat_map]. rewrite app_nil_r. apply incl_appr, incl_refl.
+    + eapply incl_chain; [apply (IH HF' HR' Hisr meta _ _ (Hm2 _) H) | apply Hnew | apply incl_appr, incl_refl | apply incl_appl, incl_refl].
+      cbn [vitems]. rewrite flat_map_app. cbn [flat_map]. rewrite app_nil_r.
       apply incl_app; [|apply incl_appr, incl_refl].
-      apply incl_appl. apply (valspans_get _ _ _ Eg).
+      apply incl_appl. apply (valitems_get _ _ _ Eg).
 Qed.
 
-Lemma first_nonmatch_objs rec kind l top :
-  Forall (ok_rec rec) l ->
+Lemma first_nonmatch_objs rec kind l meta top :
+  Forall (ok_rec rec) l -> meta_is meta top ->
   match first_nonmatch rec kind l top with
-  | None => sel_nonmatch (list node) ab [] kind l = None
-  | Some r => exists ns, sel_nonmatch (list node) ab [] kind l = Some ns /\
+  | None => sel_nonmatch (list node) (ab meta) [] kind l = None
+  | Some r => exists ns, sel_nonmatch (list node) (ab meta) [] kind l = Some ns /\
                 forall v top', r = BOk (v, top') ->
-                incl (map sp (vspans v ++ topspans top')) (map sp (topspans top) ++ ospans ns)
+                incl (vitems v ++ topitems top') (topitems top ++ oitems ns)
   end.
 Proof.
-  induction l as [|x l IH]; intro HF; cbn [first_nonmatch sel_nonmatch]; [reflexivity|].
+  induction l as [|x l IH]; intros HF Hm; cbn [first_nonmatch sel_nonmatch]; [reflexivity|].
   inversion HF as [|? ? Hx HF']; subst.
-  destruct x as [n p len s|xn kids]; [apply IH; exact HF'|].
+  destruct x as [n p len s|xn kids]; [apply IH; assumption|].
   destruct (kind xn) as [[|]|].
-  - exists (ab (NT xn kids)). split; [reflexivity|]. intros v top' E. apply (Hx _ _ _ E).
-  - apply IH; exact HF'.
+  - exists (ab meta (NT xn kids)). split; [reflexivity|]. intros v top' E. apply (Hx _ _ _ _ Hm E).
+  - apply IH; assumption.
   - exists []. split; [reflexivity|]. intros v top' E. discriminate.
 Qed.
 
-Lemma first_nt_objs rec hc l top :
-  Forall (ok_rec rec) l ->
+Lemma first_nt_objs rec hc l meta top :
+  Forall (ok_rec rec) l -> meta_is meta top ->
   match first_nt rec hc l top with
-  | None => sel_nt (list node) ab [] hc l = None
-  | Some r => exists ns, sel_nt (list node) ab [] hc l = Some ns /\
+  | None => sel_nt (list node) (ab meta) [] hc l = None
+  | Some r => exists ns, sel_nt (list node) (ab meta) [] hc l = Some ns /\
                 forall v top', r = BOk (v, top') ->
-                incl (map sp (vspans v ++ topspans top')) (map sp (topspans top) ++ ospans ns)
+                incl (vitems v ++ topitems top') (topitems top ++ oitems ns)
   end.
 Proof.
-  induction l as [|x l IH]; intro HF; cbn [first_nt sel_nt]; [reflexivity|].
+  induction l as [|x l IH]; intros HF Hm; cbn [first_nt sel_nt]; [reflexivity|].
   inversion HF as [|? ? Hx HF']; subst.
-  destruct x as [n p len s|xn kids]; [apply IH; exact HF'|].
+  destruct x as [n p len s|xn kids]; [apply IH; assumption|].
   destruct (hc xn).
-  - exists (ab (NT xn kids)). split; [reflexivity|]. intros v top' E. apply (Hx _ _ _ E).
+  - exists (ab meta (NT xn kids)). split; [reflexivity|]. intros v top' E. apply (Hx _ _ _ _ Hm E).
   - exists []. split; [reflexivity|]. intros v top' E. discriminate.
 Qed.
 
-Lemma same_top_incl top v : vspans v = [] ->
-  forall O, incl (map sp (vspans v ++ topspans top)) (map sp (topspans top) ++ O).
+Lemma same_top_incl top v : vitems v = [] ->
+  forall O, incl (vitems v ++ topitems top) (topitems top ++ O).
 Proof. intros -> O. cbn [app]. apply incl_appl, incl_refl. Qed.
+
+Lemma all_frames l : Forall (frame_ok pn) l.
+Proof. apply Forall_forall. intros x _. apply pnode_frame. Qed.
 
 Theorem pnode_objs : forall t, ok_rec pn t.
 Proof.
-  induction t as [n p l s | n kids IH] using tree_ind2; intros top v top' H.
+  induction t as [n p l s | n kids IH] using tree_ind2; intros meta top v top' Hm H.
   - cbn [pnode] in H. destruct (term_value g mm input grp use_grp n p l) as [w|] eqn:E; inversion H; subst.
-    apply same_top_incl. eapply term_value_nospans; exact E.
+    apply same_top_incl. eapply term_value_noitems; exact E.
   - cbn [pnode] in H. cbn [abs]. destruct (info mm n) as [a op|k cls attrs|r gr|] eqn:Ei; try discriminate.
-    + destruct top as [c|]; [|discriminate].
+    + destruct top as [c|]; [|discriminate]. cbn [meta_is] in Hm.
+      unfold is_refattr. rewrite <- Hm.
       destruct (find_attr a (c_meta c)) as [ma|]; [|discriminate].
       destruct op; try discriminate.
       * (* plain *)
@@ -288,102 +355,144 @@ Proof.
         destruct (val_truthy av && negb (is_vlist av))%bool; [discriminate|].
         destruct kids as [|k rest]; [discriminate|].
         inversion IH as [|? ? Hk _]; subst.
-        destruct (pn k (Some c)) as [[v1 top1]|e] eqn:E; [|discriminate].
-        destruct (a_ref ma && negb (a_cont ma))%bool; [discriminate|].
+        destruct (pn k (Some c)) as [[v0 top1]|e] eqn:E; [|discriminate].
+        set (isr := (a_ref ma && negb (a_cont ma))%bool) in *.
+        set (v1 := if isr then VRef v0 (Build.tpos k) (a_cls ma) else v0) in *.
         destruct top1 as [c1|]; [|discriminate].
-        pose proof (Hk _ _ _ E) as Hs.
-        assert (Hnew : forall X, incl (vspans X) (topspans (Some c) ++ vspans v1) ->
-                       incl (map sp (vspans VNone ++ topspans (Some (cur_set a X c1)))) (map sp (topspans (Some c)) ++ ospans (ab k))).
-        { intros X HX. cbn [vspans app]. intros x Hx. apply in_map_iff in Hx as [y [<- Hy]].
-          apply topspans_set in Hy. apply in_app_or in Hy as [Hy|Hy].
-          - apply Hs. apply in_map. apply in_or_app; right; exact Hy.
-          - apply HX in Hy. apply in_app_or in Hy as [Hy|Hy].
-            + apply in_or_app; left. apply in_map; exact Hy.
-            + apply Hs. apply in_map. apply in_or_app; left; exact Hy. }
+        assert (Hmc : meta_is (c_meta c) (Some c)) by reflexivity.
+        pose proof (Hk _ _ _ _ Hmc E) as Hs.
+        set (O := oitems ((if isr then [refnode k] else []) ++ ab (c_meta c) k)).
+        assert (Hv : incl (vitems v1 ++ topitems (Some c1)) (topitems (Some c) ++ O)).
+        { subst v1 O. rewrite oitems_app. destruct isr.
+          - cbn [vitems app]. intros x [<-|Hx].
+            + apply in_or_app; right. apply in_or_app; left. cbn. left. reflexivity.
+            + apply Hs in Hx. apply in_app_or in Hx as [Hx|Hx]; apply in_or_app; [left; exact Hx | right; apply in_or_app; right; exact Hx].
+          - cbn [oitems flat_map app]. exact Hs. }
+        assert (Hnew : forall X, incl (vitems X) (topitems (Some c) ++ vitems v1) ->
+                       incl (vitems VNone ++ topitems (Some (cur_set a X c1))) (topitems (Some c) ++ O)).
+        { intros X HX. cbn [vitems app]. intros x Hx.
+          apply topitems_set in Hx. apply in_app_or in Hx as [Hx|Hx].
+          - apply Hv. apply in_or_app; right; exact Hx.
+          - apply HX in Hx. apply in_app_or in Hx as [Hx|Hx].
+            + apply in_or_app; left. exact Hx.
+            + apply Hv. apply in_or_app; left; exact Hx. }
         destruct av; inversion H; subst; apply Hnew; try (apply incl_appr, incl_refl).
-        cbn [vspans]. rewrite flat_map_app. cbn [flat_map]. rewrite app_nil_r.
+        cbn [vitems]. rewrite flat_map_app. cbn [flat_map]. rewrite app_nil_r.
         apply incl_app; [|apply incl_appr, incl_refl].
-        apply incl_appl. apply (valspans_get _ _ _ Eg).
+        apply incl_appl. apply (valitems_get _ _ _ Eg).
       * (* optional *)
-        inversion H; subst. cbn [vspans app]. apply incl_appl. apply incl_map.
-        eapply incl_tran; [apply topspans_set|]. cbn [vspans]. rewrite app_nil_r. apply incl_refl.
+        inversion H; subst. cbn [vitems app]. apply incl_appl.
+        eapply incl_tran; [apply topitems_set|]. cbn [vitems]. rewrite app_nil_r. apply incl_refl.
       * (* list *)
-        destruct (lst_loop pn (is_sep_of g n) a (a_ref ma && negb (a_cont ma))%bool kids (Some c)) as [t1|e] eqn:E; [|discriminate].
-        inversion H; subst. cbn [vspans app]. apply (lst_objs _ _ _ _ _ IH _ _ E).
+        match type of H with match lst_loop _ _ _ ?RC _ _ with _ => _ end = _ => set (rc := RC) in * end.
+        destruct (lst_loop pn (is_sep_of g n) a rc kids (Some c)) as [t1|e] eqn:E; [|discriminate].
+        inversion H; subst. cbn [vitems app].
+        apply (lst_objs pn (is_sep_of g n) a rc (a_ref ma && negb (a_cont ma))%bool kids IH (all_frames kids)); [|reflexivity|exact E].
+        subst rc. destruct (a_ref ma && negb (a_cont ma))%bool; reflexivity.
     + destruct k.
       * (* common *)
         destruct (each_loop pn kids _) as [[c1|]|e] eqn:E; try discriminate.
         destruct (name_ok (c_vals c1)); [|discriminate]. destruct (many_ok (c_meta c1) (c_vals c1)); [|discriminate].
         inversion H; subst. clear H.
         assert (F : same_frame (Some (mkCur cls attrs (Build.tpos (NT n kids)) (Build.tend (NT n kids)) (init_attrs auto attrs))) (Some c1)).
-        { apply (each_frame pn kids); [|exact E]. apply Forall_forall. intros x _. apply pnode_frame. }
+        { apply (each_frame pn kids); [|exact E]. apply all_frames. }
         unfold same_frame in F. cbn [c_pos c_end] in F. destruct F as [F1 [F2 _]].
-        pose proof (each_objs _ _ IH _ _ E) as Hk. cbn [topspans c_vals] in Hk. rewrite init_nospans in Hk. cbn [map app] in Hk.
-        rewrite ospans_obj. unfold nspan. cbn [fst snd].
-        intros x Hx. apply in_map_iff in Hx as [y [<- Hy]]. apply in_or_app.
-        apply in_app_or in Hy as [Hy|Hy]; [|left; apply in_map; exact Hy].
-        cbn [vspans] in Hy. destruct Hy as [<-|Hy].
-        -- right. apply in_or_app; right. left. unfold sp. cbn [fst snd]. rewrite F1, F2. reflexivity.
-        -- right. apply in_or_app; left. apply Hk. apply in_map. exact Hy.
+        assert (Hmc : meta_is attrs (Some (mkCur cls attrs (Build.tpos (NT n kids)) (Build.tend (NT n kids)) (init_attrs auto attrs)))) by reflexivity.
+        pose proof (each_objs _ _ IH (all_frames kids) _ _ _ Hmc E) as Hk.
+        cbn [topitems c_vals] in Hk. rewrite init_noitems in Hk. cbn [app] in Hk.
+        rewrite oitems_obj. unfold nspan. cbn [fst snd].
+        intros x Hx. apply in_or_app.
+        apply in_app_or in Hx as [Hx|Hx]; [|left; exact Hx].
+        cbn [vitems] in Hx. destruct Hx as [<-|Hx].
+        -- right. apply in_or_app; right. left. rewrite F1, F2. reflexivity.
+        -- right. apply in_or_app; left. apply Hk. exact Hx.
       * (* abstract *)
         destruct kids as [|k rest]; [discriminate|].
         destruct rest as [|k2 rest].
-        -- inversion IH as [|? ? Hk _]; subst. apply (Hk _ _ _ H).
-        -- pose proof (first_nonmatch_objs pn (nonmatch_class mm) (k :: k2 :: rest) top IH) as H1.
+        -- inversion IH as [|? ? Hk _]; subst. apply (Hk _ _ _ _ Hm H).
+        -- pose proof (first_nonmatch_objs pn (nonmatch_class mm) (k :: k2 :: rest) meta top IH Hm) as H1.
            destruct (first_nonmatch pn (nonmatch_class mm) (k :: k2 :: rest) top) as [r0|] eqn:E0.
            ++ destruct H1 as [ns [-> Hns]]. apply Hns. exact H.
            ++ rewrite H1.
-              pose proof (first_nt_objs pn (has_class mm) (k :: k2 :: rest) top IH) as H2.
+              pose proof (first_nt_objs pn (has_class mm) (k :: k2 :: rest) meta top IH Hm) as H2.
               destruct (first_nt pn (has_class mm) (k :: k2 :: rest) top) as [r|] eqn:E.
               ** destruct H2 as [ns [-> Hns]]. apply Hns. exact H.
               ** rewrite H2. inversion H; subst. apply same_top_incl. reflexivity.
       * (* match *)
         destruct (pmatch g input (NT n kids)) as [w|] eqn:E; inversion H; subst.
-        apply same_top_incl. eapply pmatch_nospans; exact E.
-Qed.
-
-(* every object inside the value built from a parse tree (without an enclosing object) spans
-   exactly a common-rule node of that tree, and that span is a key of the position map *)
-Theorem built_objects_are_keys t v top' :
-  pn t None = BOk (v, top') ->
-  forall p e, In (p, e) (vspans v) ->
-  (exists t', In t' (subtrees t) /\ is_common mm t' /\ p = Build.tpos t' /\ e = Build.tend t') /\
-  In (N.of_nat p, N.of_nat e) (ospans (ab t)).
-Proof.
-  intros H p e Hin.
-  assert (Hk : In (sp (p, e)) (ospans (ab t))).
-  { pose proof (pnode_objs t _ _ _ H) as Hi. cbn [topspans map app] in Hi.
-    apply Hi. apply in_map. apply in_or_app; left; exact Hin. }
-  split; [|exact Hk].
-  unfold ospans in Hk. apply in_map_iff in Hk as [[[s0 e0] i] [Hk1 Hk2]].
-  destruct (abs_objs g mm t _ Hk2) as [t' [H1 [H2 H3]]].
-  exists t'. split; [exact H1|]. split; [exact H2|].
-  unfold item_of, nspan in H3. cbn [fst snd] in H3. inversion H3; subst.
-  unfold sp, ikey in Hk1. cbn [fst snd] in Hk1. inversion Hk1 as [[Ha Hb]].
-  split; apply Nat2N.inj; symmetry; assumption.
-Qed.
-
-(* ... and is listed in the position map of the abstracted tree *)
-Theorem built_objects_in_dict t v top' :
-  pn t None = BOk (v, top') ->
-  forall p e, In (p, e) (vspans v) ->
-  exists nd i, In nd (ab t) /\ In (N.of_nat p, N.of_nat e, i) (rule_dict nd).
-Proof.
-  intros H p e Hin. destruct (built_objects_are_keys t v top' H p e Hin) as [_ Hk].
-  unfold ospans in Hk. apply in_map_iff in Hk as [x [Hx1 Hx2]].
-  apply in_flat_map in Hx2 as [nd [Hnd Hx2]].
-  destruct (dict_complete nd x Hx2) as [i Hi]. exists nd, i. split; [exact Hnd|].
-  rewrite Hx1 in Hi. exact Hi.
+        apply same_top_incl. eapply pmatch_noitems; exact E.
 Qed.
 End B.
 
+(* items of the abstraction, read back *)
+Lemma nitems_obj nd : forall s e, In (IObj s e) (nitems nd) -> exists i, In (s, e, i) (objs_post nd).
+Proof.
+  induction nd as [i s0 e0 kids IHk|i s0 e0 nm|s0 e0] using node_ind'; intros s e H; cbn [nitems] in H.
+  - apply in_app_or in H as [H|[H|[]]].
+    + apply in_flat_map in H as [k [Hk H]]. rewrite Forall_forall in IHk. destruct (IHk _ Hk _ _ H) as [j Hj].
+      exists j. cbn [objs_post]. apply in_or_app; left. apply in_flat_map. exists k. split; assumption.
+    + inversion H; subst. exists i. cbn [objs_post]. apply in_or_app; right. left. reflexivity.
+  - destruct H as [H|[]]. discriminate.
+  - destruct H.
+Qed.
+
+Lemma nitems_ref nd : forall s, In (IRef s) (nitems nd) -> exists x, In x (refs_pre nd) /\ cstart x = s.
+Proof.
+  induction nd as [i s0 e0 kids IHk|i s0 e0 nm|s0 e0] using node_ind'; intros s H; cbn [nitems] in H.
+  - apply in_app_or in H as [H|[H|[]]]; [|discriminate].
+    apply in_flat_map in H as [k [Hk H]]. rewrite Forall_forall in IHk. destruct (IHk _ Hk _ H) as [x [Hx1 Hx2]].
+    exists x. split; [|exact Hx2]. cbn [refs_pre]. apply in_flat_map. exists k. split; assumption.
+  - destruct H as [H|[]]. inversion H; subst. eexists. split; [cbn [refs_pre]; left; reflexivity | reflexivity].
+  - destruct H.
+Qed.
+
+(* every object inside the value built from a parse tree (without an enclosing object) spans
+   exactly a common-rule node of that tree and is listed in the position map; every pending
+   reference inside it is a collected reference whose start is the VRef's position, i.e. the
+   start of the reference node of the parse tree *)
 Theorem built_objects_spans_and_keys g mm input grp auto use_grp t v top' :
   pnode g mm input grp auto use_grp t None = BOk (v, top') ->
-  forall p e, In (p, e) (vspans v) ->
+  forall p e, In (IObj (N.of_nat p) (N.of_nat e)) (vitems v) ->
   (exists t', In t' (subtrees t) /\ is_common mm t' /\ p = Build.tpos t' /\ e = Build.tend t') /\
-  exists nd i, In nd (abs g mm t) /\ In (N.of_nat p, N.of_nat e, i) (rule_dict nd).
+  exists nd i, In nd (abs g mm [] t) /\ In (N.of_nat p, N.of_nat e, i) (rule_dict nd).
 Proof.
-  intros H p e Hin. split.
-  - exact (proj1 (built_objects_are_keys g mm input grp auto use_grp t v top' H p e Hin)).
-  - exact (built_objects_in_dict g mm input grp auto use_grp t v top' H p e Hin).
+  intros H p e Hin.
+  pose proof (pnode_objs g mm input grp auto use_grp t [] None v top' I H) as Hi. cbn [topitems app] in Hi.
+  assert (Hk : In (IObj (N.of_nat p) (N.of_nat e)) (oitems (abs g mm [] t))) by (apply Hi; apply in_or_app; left; exact Hin).
+  unfold oitems in Hk. apply in_flat_map in Hk as [nd [Hnd Hk]].
+  destruct (nitems_obj _ _ _ Hk) as [i Hi2].
+  destruct (dict_complete nd _ Hi2) as [j Hj]. cbn [ikey fst] in Hj.
+  split; [|exists nd, j; split; assumption].
+  destruct (dict_key_is_node_span g mm [] t nd _ _ _ Hnd Hj) as [t' [H1 [H2 [_ [H3 H4]]]]].
+  exists t'. split; [exact H1|]. split; [exact H2|]. split; apply Nat2N.inj; assumption.
+Qed.
+
+Theorem built_refs_are_collected g mm input grp auto use_grp t v top' :
+  pnode g mm input grp auto use_grp t None = BOk (v, top') ->
+  forall p, In (IRef (N.of_nat p)) (vitems v) ->
+  exists nd x k, In nd (abs g mm [] t) /\ In x (refs_pre nd) /\ cstart x = N.of_nat p /\
+                 In k (subtrees t) /\ p = Build.tpos k /\ cend x = N.of_nat (Build.tend k).
+Proof.
+  intros H p Hin.
+  pose proof (pnode_objs g mm input grp auto use_grp t [] None v top' I H) as Hi. cbn [topitems app] in Hi.
+  assert (Hk : In (IRef (N.of_nat p)) (oitems (abs g mm [] t))) by (apply Hi; apply in_or_app; left; exact Hin).
+  unfold oitems in Hk. apply in_flat_map in Hk as [nd [Hnd Hk]].
+  destruct (nitems_ref _ _ Hk) as [x [Hx1 Hx2]].
+  destruct (ref_is_tree_node g mm [] t nd x Hnd Hx1) as [k [Hk1 [Hk2 Hk3]]].
+  exists nd, x, k. repeat split; try assumption.
+  rewrite Hx2 in Hk2. apply Nat2N.inj. exact Hk2.
+Qed.
+
+(* C34_entry_exact on the builder's parse trees: the entry made for the collected reference has
+   ref_pos_start = the VRef's position = start of the reference node, ref_pos_end = its end *)
+Theorem built_ref_entry g mm input grp auto use_grp t v top' :
+  pnode g mm input grp auto use_grp t None = BOk (v, top') ->
+  forall p, In (IRef (N.of_nat p)) (vitems v) ->
+  exists nd x k, In nd (abs g mm [] t) /\ In x (refs_pre nd) /\ In k (subtrees t) /\ p = Build.tpos k /\
+                 forall tg, e_start (mk_entry (x, tg)) = N.of_nat p /\
+                            e_end (mk_entry (x, tg)) = N.of_nat (Build.tend k).
+Proof.
+  intros H p Hin.
+  destruct (built_refs_are_collected g mm input grp auto use_grp t v top' H p Hin) as [nd [x [k [H1 [H2 [H3 [H4 [H5 H6]]]]]]]].
+  exists nd, x, k. repeat split; try assumption; rewrite mk_entry_eq; cbn [e_start e_end]; assumption.
 Qed.
